@@ -145,7 +145,9 @@ def gen_items(R):
         sig = '%s %s %s -> %s' % (a, op, b, r)
         A, B = cxx(a), cxx(b)
         lam = '[](const %s& a, const %s& b) { return a %s b; }' % (A, B, op)
-        items.append((3, 'rel::homogeneity<%s, %s>("%s", \'%s\', %s);' % (A, B, sig, op, lam)))
+        # mode 3 calls the relation with named operands and with temporaries: the lambda forwards the value category
+        fwd = '[](auto&& a, auto&& b) { return std::forward<decltype(a)>(a) %s std::forward<decltype(b)>(b); }' % op
+        items.append((3, 'rel::homogeneity<%s, %s>("%s", \'%s\', %s);' % (A, B, sig, op, fwd)))
         items.append((4, 'REL_EXACT("%s", %s, %s, %s, %s)' % (sig, A, B, op, OPT[op])))
         # constructor twin
         if r in qs:
@@ -162,7 +164,9 @@ def gen_items(R):
         params = ', '.join('const %s& x%d' % (cxx(x), i) for i, x in enumerate(args))
         call = ', '.join('x%d' % i for i in range(len(args)))
         sig = '%s(%s)' % (c['c'], ', '.join(args))
-        items.append((3, 'rel::homogeneity<%s>("%s", \'c\', [](%s) { return %s(%s); });' % (types, sig, params, cxx(c['c']), call)))
+        fparams = ', '.join('auto&& x%d' % i for i in range(len(args)))
+        fcall = ', '.join('std::forward<decltype(x%d)>(x%d)' % (i, i) for i in range(len(args)))
+        items.append((3, 'rel::homogeneity<%s>("%s", \'c\', [](%s) { return %s(%s); });' % (types, sig, fparams, cxx(c['c']), fcall)))
     # member functions returning quantities
     for m in R['members']:
         if m['r'] in ('optional',):
@@ -267,15 +271,18 @@ HEADER = '''#include "rel_check.hpp"
     using A_ = A;                                                                                                   \\
     using B_ = B;                                                                                                   \\
     auto opf = [](const A_& a, const B_& b) { return a OP b; };                                                     \\
+    auto tmpf = [](const A_& a, const B_& b, int which) {                                                           \\
+      return which == 1 ? (A_(a) OP b) : which == 2 ? (a OP B_(b)) : (A_(a) OP B_(b));                               \\
+    };                                                                                                              \\
     using R_ = std::decay_t<decltype(opf(std::declval<const A_&>(), std::declval<const B_&>()))>;                   \\
     if constexpr (rel::checkable<R_>) {                                                                             \\
       if constexpr (rel::RAWTRAIT<A_, B_>::value) {                                                                 \\
         if constexpr (std::is_same_v<typename rel::RAWTRAIT<A_, B_>::type, std::decay_t<decltype(rel::raw(std::declval<const R_&>()))>>) \\
-          rel::exact_op<A_, B_>(SIG, #OP[0], opf, [](const A_& a, const B_& b) { return rel::raw(a) OP rel::raw(b); }, true); \\
+          rel::exact_op<A_, B_>(SIG, #OP[0], opf, [](const A_& a, const B_& b) { return rel::raw(a) OP rel::raw(b); }, true, tmpf); \\
         else                                                                                                        \\
-          rel::exact_op<A_, B_>(SIG, #OP[0], opf, opf, false);                                                      \\
+          rel::exact_op<A_, B_>(SIG, #OP[0], opf, opf, false, tmpf);                                                      \\
       } else {                                                                                                      \\
-        rel::exact_op<A_, B_>(SIG, #OP[0], opf, opf, false);                                                        \\
+        rel::exact_op<A_, B_>(SIG, #OP[0], opf, opf, false, tmpf);                                                        \\
       }                                                                                                             \\
     }                                                                                                               \\
   }
